@@ -218,8 +218,8 @@ def discharge_records(recs, workers=None, timeout_ms=None):
     workers = workers or min(14, os.cpu_count() or 4)
     todo = []
     for i, r in enumerate(recs):
-        if r.status == "trivial":
-            continue
+        if r.status is not None:
+            continue          # already decided (trivial, or decided by concrete execution)
         if r.kind.startswith("canary"):
             todo.append((i, r.smts, 1500, (0,)))
         else:
